@@ -457,4 +457,71 @@ theorem accTerms_cons_zero (t : Nat × Nat) (terms : List (Nat × Nat)) (nf : Na
 
 theorem divF_ne {a b : Rat} (h : b ≠ 0) : divF a b = .ok (a / b) := by unfold divF; rw [if_neg h]
 
+/-! ### `_round`, frame indices, `_hierarchy_bounds` -/
+
+theorem pyInt_intCast (k : Int) : pyInt (k : Rat) = k := by
+  unfold pyInt
+  split
+  · exact Rat.floor_intCast k
+  · have : (-(k : Rat)) = ((-k : Int) : Rat) := by push_cast; ring
+    rw [this, Rat.floor_intCast]; omega
+
+/-- `int((t - np.mod(t, fs)) / fs)` is the model's frame index `⌊t / fs⌋` for `fs > 0` -/
+theorem pyInt_round_div (t fs : Rat) (h : 0 < fs) : pyInt ((t - npMod t fs) / fs) = frameOf t fs := by
+  have hne : fs ≠ 0 := ne_of_gt h
+  have : (t - npMod t fs) / fs = (((t / fs).floor : Int) : Rat) := by
+    unfold npMod
+    field_simp
+    ring
+  rw [this, pyInt_intCast]; rfl
+
+theorem round_sub_div (a b fs : Rat) (h : 0 < fs) :
+    pyInt (((a - npMod a fs) - (b - npMod b fs)) / fs) = frameOf a fs - frameOf b fs := by
+  have hne : fs ≠ 0 := ne_of_gt h
+  have : ((a - npMod a fs) - (b - npMod b fs)) / fs = (((frameOf a fs - frameOf b fs : Int)) : Rat) := by
+    unfold npMod frameOf
+    push_cast
+    field_simp
+    ring
+  rw [this, pyInt_intCast]
+
+theorem frames_of_round (ivs : Ivals) (fs : Rat) (h : 0 < fs) :
+    mapIvals pyInt (mapIvals (fun v => v / fs) (subIvals ivs (mapIvals (fun v => npMod v fs) ivs)))
+      = ivs.map fun p => (frameOf p.1 fs, frameOf p.2 fs) := by
+  unfold mapIvals subIvals
+  rw [List.zipWith_map_right, List.zipWith_self, List.map_map, List.map_map]
+  apply List.map_congr_left
+  intro p _
+  simp only [Function.comp, pyInt_round_div _ _ h]
+
+theorem foldl_min_le (l : List Rat) (x : Rat) : l.foldl min x ≤ x := by
+  induction l generalizing x with
+  | nil => exact le_refl _
+  | cons y t ih => exact le_trans (ih (min x y)) (min_le_left _ _)
+
+theorem le_foldl_max (l : List Rat) (x : Rat) : x ≤ l.foldl max x := by
+  induction l generalizing x with
+  | nil => exact le_refl _
+  | cons y t ih => exact le_trans (le_max_left _ _) (ih (max x y))
+
+theorem min?_le_max? {l : List Rat} {a b : Rat} (ha : l.min? = some a) (hb : l.max? = some b) : a ≤ b := by
+  cases l with
+  | nil => cases ha
+  | cons x t =>
+    simp only [List.min?_cons', List.max?_cons', Option.some.injEq] at ha hb
+    subst ha; subst hb
+    exact le_trans (foldl_min_le t x) (le_foldl_max t x)
+
+theorem length_setBlock (m : Mat) (r0 r1 c0 c1 v : Nat) : (Hierarchy.setBlock m r0 r1 c0 c1 v).length = m.length := by
+  simp [Hierarchy.setBlock]
+
+theorem length_lcaLevel (fs : Rat) (n : Nat) (level : Nat) (ivs : Ivals) (m : Mat) :
+    (lcaLevel fs n m level ivs).length = m.length := by
+  unfold lcaLevel
+  induction ivs generalizing m with
+  | nil => rfl
+  | cons iv t ih => rw [List.foldl_cons, ih, length_setBlock]
+
+theorem length_zeros (n : Nat) : (zeros n).length = n := by simp [zeros]
+
 end Mir.PyH
